@@ -5,6 +5,8 @@ import json, os, re, resource, subprocess, time
 VERIF = os.path.dirname(os.path.dirname(os.path.abspath(__file__)))
 MEM_KB = 12 * 1024 * 1024
 DEFAULT_SOLVER = os.environ.get('WV_SOLVER', 'kissat')
+FIRST_TRY_S = 100
+AUTO_SPLIT = 10
 
 
 class Ob:
@@ -226,7 +228,7 @@ def run_ob(ob, gen_dir, work, meta):
         f.write('#define WV_CONTRACTS "contracts_all.h"\n#include "wencry.c"\n' + hs)
     inc = ['-I' + gen_dir, '-I' + os.path.join(VERIF, 'env'), '-I' + os.path.join(VERIF, 'spec'),
            '-I' + os.path.join(VERIF, 'contracts'), '-I' + d]
-    defs = ['-D' + x for x in ['WV_CBMC'] + ob.defines]
+    defs = ['-D' + x for x in ['WV_CBMC'] + ob.defines + ([] if 'WV_CLI' in ob.defines else ['WV_NO_CLI'])]
     a, b, c = [os.path.join(d, x) for x in ('a.gb', 'b.gb', 'c.gb')]
     rc, so, se, _ = run(['goto-cc', '--function', ob.entry] + inc + defs + [src, '-o', a], 120)
     if rc != 0:
@@ -240,6 +242,33 @@ def run_ob(ob, gen_dir, work, meta):
     if rc != 0:
         res['reason'] = 'nondet-static failed: ' + (se or so)[-500:]
         return res
+    # slice: bodies of repository functions that are not reachable from the harness (not looking through the callees that are
+    # replaced by their contracts) are removed; specification and ghost helpers referenced only from contract clauses stay
+    rc, so, se, _ = run(['goto-instrument', '--reachable-call-graph', a], 120)
+    edges = {}
+    for ln in so.split('\n'):
+        if ' -> ' in ln:
+            x, y = ln.strip().split(' -> ')
+            edges.setdefault(x, set()).add(y)
+    reach, todo = set(), [ob.entry]
+    while todo:
+        f = todo.pop()
+        if f in reach:
+            continue
+        reach.add(f)
+        if f in ob.replace:
+            continue
+        todo += list(edges.get(f, ()))
+    drop = [f for f in meta['funcs'] if f not in reach and f != ob.enforce]
+    if drop:
+        a1 = os.path.join(d, 'a1.gb')
+        cmdr = ['goto-instrument']
+        for f in drop:
+            cmdr += ['--remove-function-body', f]
+        rc, so, se, _ = run(cmdr + [a, a1], 300)
+        if rc == 0:
+            a = a1
+    res['sliced_away'] = len(drop)
     # loops: unwind those without a loop contract
     rc, so, se, _ = run(['goto-instrument', '--show-loops', '--json-ui', a], 120)
     loops = []
@@ -305,19 +334,25 @@ def run_ob(ob, gen_dir, work, meta):
         cmd += ['--external-sat-solver', 'kissat']
     res['backend'] = {'kissat': 'CBMC bit-blasting + kissat (external SAT solver)', 'minisat': 'CBMC built-in SAT (MiniSat 2.2.1)',
                       'z3': 'CBMC SMT2 + z3 4.8.12'}[solver]
-    if ob.split:
-        rc, so, se, _ = run(['cbmc', cur, '--object-bits', '12', '--drop-unused-functions', '--show-properties', '--json-ui'], 300)
-        names = []
-        try:
-            for blk in json.loads(so):
-                if isinstance(blk, dict) and 'properties' in blk:
-                    names = [p['name'] for p in blk['properties']]
-        except Exception:
-            pass
-        if not names:
-            res['reason'] = 'cannot list properties for split mode: ' + (se or so)[-300:]
-            return res
-        groups = [names[i::ob.split] for i in range(ob.split)]
+    # The vacuity canary is a property that must FAIL.  With an external (non-incremental) SAT solver every failing property
+    # costs one more full solver call, so the canary is checked in its own (cheap, satisfiable) run and the main run -- all
+    # other properties -- needs exactly one solver call when everything holds.  With split > 1 the other properties are
+    # further partitioned into groups that are sliced and solved separately, in parallel.
+    split = max(ob.split, 1)
+    rc, so, se, _ = run(['cbmc', cur, '--object-bits', '12', '--drop-unused-functions', '--show-properties', '--json-ui'], 300)
+    names, canaries = [], []
+    try:
+        for blk in json.loads(so):
+            if isinstance(blk, dict) and 'properties' in blk:
+                for p in blk['properties']:
+                    (canaries if 'WV_CANARY' in p.get('description', '') else names).append(p['name'])
+    except Exception:
+        pass
+    if not names:
+        res['reason'] = 'cannot list properties: ' + (se or so)[-300:]
+        return res
+    if True:
+        groups = [names[i::split] for i in range(split)] + ([canaries] if canaries else [])
         import concurrent.futures
 
         def one(g):
@@ -325,7 +360,7 @@ def run_ob(ob, gen_dir, work, meta):
             for n_ in g:
                 c2 += ['--property', n_]
             return run(c2, ob.timeout)
-        with concurrent.futures.ThreadPoolExecutor(max_workers=ob.split) as ex:
+        with concurrent.futures.ThreadPoolExecutor(max_workers=split + 1) as ex:
             outs = list(ex.map(one, [g for g in groups if g]))
         res['seconds'] = round(time.time() - t0, 1)
         res['solver_seconds'] = round(sum(o[3] for o in outs), 1)
@@ -354,19 +389,6 @@ def run_ob(ob, gen_dir, work, meta):
         js = [{'result': merged}]
         so = json.dumps(js)
         open(os.path.join(d, 'cbmc.json'), 'w').write(so)
-    else:
-        rc, so, se, secs = run(cmd, ob.timeout)
-        res['seconds'] = round(time.time() - t0, 1)
-        res['solver_seconds'] = round(secs, 1)
-        open(os.path.join(d, 'cbmc.json'), 'w').write(so)
-        if rc == -9:
-            res['reason'] = 'solver timeout after %ds' % ob.timeout
-            return res
-        try:
-            js = json.loads(so)
-        except Exception:
-            res['reason'] = 'cbmc produced no parsable result (rc=%s): %s' % (rc, (se or so)[-600:])
-            return res
     results = None
     for blk in js:
         if isinstance(blk, dict) and 'result' in blk:
